@@ -29,7 +29,11 @@ import (
 )
 
 var locksetTables = []string{"batcher", "extractor", "ignoreSet", "objectPool", "logger", "multitermGlobals", "aggLoop", "stageState", "stageStateFuncfile", "stdlibGlobals",
+	"stageStateExpressions", "stageStateStdmath", "compiledKeyBuilder", "expressionsGlobals", "stdmathGlobals",
 	"aggregation", "multiterm", "termrenderers"}
+
+// closure tables: `stageclass <table>` = no captured variable is plainly written at evaluation time
+var stageClassTables = []string{"stageState", "stageStateFuncfile", "stageStateExpressions", "stageStateStdmath"}
 
 // statusObservable strips the time-dependent middle ("<bytes> (<rate>/s) ") of a status line.
 func statusObservable(st string) string {
@@ -169,12 +173,20 @@ func c05Pool(f []string) string {
 	iters, _ := strconv.Atoi(f[2])
 	size, _ := strconv.Atoi(f[3])
 	p := slicepool.NewObjectPool[pooled](size)
-	var bad int64
+	var bad, panics int64
+	var firstPanic atomic.Value
 	var wg sync.WaitGroup
 	for w := 0; w < workers; w++ {
 		wg.Add(1)
 		go func() {
 			defer wg.Done()
+			defer func() { // a panic inside Get/Return (an index out of range on the pool's slice) is an answer, not a crash
+				if e := recover(); e != nil {
+					if atomic.AddInt64(&panics, 1) == 1 {
+						firstPanic.Store(strings.ReplaceAll(fmt.Sprint(e), "\n", " "))
+					}
+				}
+			}()
 			var held []*pooled
 			for i := 0; i < iters; i++ {
 				o := p.Get()
@@ -199,6 +211,10 @@ func c05Pool(f []string) string {
 		}()
 	}
 	wg.Wait()
+	if panics > 0 {
+		fp, _ := firstPanic.Load().(string)
+		return fmt.Sprintf("ok bad=%d panics=%d panic=%s", bad, panics, HexS(fp))
+	}
 	return fmt.Sprintf("ok bad=%d", bad)
 }
 
@@ -206,6 +222,9 @@ func c05LocksetGen(r *Rand, tier string) []string {
 	var out []string
 	for _, t := range locksetTables {
 		out = append(out, "lockset "+t)
+	}
+	for _, t := range stageClassTables {
+		out = append(out, "stageclass "+t)
 	}
 	n := 6
 	if tier == "thorough" {
@@ -273,7 +292,7 @@ func c05LocksetGen(r *Rand, tier string) []string {
 		np = 12
 	}
 	for i := 0; i < np; i++ {
-		out = append(out, fmt.Sprintf("pool %d %d %d", Pick(r, []int{2, 4, 8}), Pick(r, []int{2000, 20000}), Pick(r, []int{0, 1, 5})))
+		out = append(out, fmt.Sprintf("pool %d %d %d", Pick(r, []int{2, 4, 8, 12, 16}), Pick(r, []int{2000, 20000}), Pick(r, []int{0, 1, 5})))
 	}
 	return out
 }
@@ -282,6 +301,8 @@ func c05LocksetRun(f []string) (string, bool) {
 	switch f[0] {
 	case "lockset":
 		return "ok racefree", true
+	case "stageclass":
+		return "ok mutable=.", true
 	case "status":
 		return c05Status(f), true
 	case "pool":
@@ -293,7 +314,7 @@ func c05LocksetRun(f []string) (string, bool) {
 func c05LocksetStats(st map[string]int, c string) bool {
 	f := strings.Fields(c)
 	switch f[0] {
-	case "lockset":
+	case "lockset", "stageclass":
 		st["lockset.tables"]++
 	case "status":
 		st["status.cases"]++
